@@ -2,6 +2,7 @@
    Statements only (models: model/Sched.v, model/Deps.v); every proof is `exact <lemma>`.      *)
 From Coq Require Import ZArith List Bool.
 From XV Require Import model.Sched model.Deps proofs.Sched_lemmas proofs.Sched_inv proofs.Sched_thm proofs.Deps_lemmas.
+From XV Require proofs.Sched_live.
 Import ListNotations.
 Open Scope Z_scope.
 
@@ -50,3 +51,34 @@ Theorem C04_deps_exact_dup_refuted : exists h root fuel,
   n_sub (get h root) = None /\ collect h fuel root [] = Some [] /\ reachv h (VRef root) 0.
 Proof. exact deps_exact_dup_refuted. Qed.
 Print Assumptions C04_deps_exact_dup_refuted.
+
+(* `collect = Some ds` above is not a vacuous hypothesis: on every configuration without an infinite chain
+   of references (`finite`) the walk ends from some recursion depth on, more depth never changes the
+   result, and a configuration that contains itself gives no result at any depth (RecursionError) *)
+Theorem C04_collect_total : forall h root explicit, marks_ok h -> finite h (VRef root) ->
+  exists n, forall m, (n <= m)%nat -> exists ds, collect h m root explicit = Some ds.
+Proof. exact collect_total. Qed.
+Print Assumptions C04_collect_total.
+
+Theorem C04_collect_stable : forall h f f' root explicit ds, (f <= f')%nat ->
+  collect h f root explicit = Some ds -> collect h f' root explicit = Some ds.
+Proof. exact collect_stable. Qed.
+Print Assumptions C04_collect_stable.
+
+Theorem C04_cyclic_never_collects : forall fuel explicit, collect h_cyc fuel 0%nat explicit = None.
+Proof. exact cyclic_never_collects. Qed.
+Print Assumptions C04_cyclic_never_collects.
+
+(* the two models composed: when the job dependencies given to the scheduler for job j contain what
+   submit() computed from the parameters (the harness checks that equality on every run), j is launched
+   only after every job registered for a task reachable from its parameters, and every explicit
+   dependency, is DONE *)
+Theorem C04_launch_after_parameters : forall W s j h fuel root explicit ds,
+  wf W = true -> reachable W s ->
+  marks_ok h -> n_sub (get h root) = None ->
+  collect h fuel root explicit = Some ds ->
+  (forall k, In k ds -> In (DJob k) (deps W j)) ->
+  (launches (jobs s j) >= 1)%nat ->
+  forall k, reachv h (VRef root) k \/ In k explicit -> st (jobs s k) = DONE.
+Proof. exact Sched_live.launch_after_parameters. Qed.
+Print Assumptions C04_launch_after_parameters.
